@@ -34,9 +34,11 @@ func rawBody(o *opReq, queryTail, varsName, opName string) string {
 
 const echoStringQ = `"query":"query Q($s: String) { echoString(x: $s) }"`
 
-// deepLimit: the nesting-limit texts are expensive for the extracted model (two 20 kB texts per
-// submission, parsed several times): full size only in the thorough tier
-var deepLimit = false
+// nestFull: the nesting-limit texts at their real size (9999 / 10000 arrays inside the body object, 20 kB
+// each).  They cost the extracted model seconds per parse, so the real size is used only by the two
+// dedicated cases of the thorough tier (each text once per transport); everywhere else the two kinds
+// are 1/50 of the size (plain deep nesting, far from the limit).
+var nestFull = false
 
 func rawTexts(o *opReq) []rawText {
 	deep := strings.Repeat("[", 40) + "1" + strings.Repeat("]", 40)
@@ -172,7 +174,7 @@ func rawGetSub(kind int, name string) *submission {
 }
 
 func nestN(n int) int {
-	if deepLimit {
+	if nestFull {
 		return n
 	}
 	return n / 50
